@@ -389,6 +389,9 @@ def call_lua_sandbox(
             "#invoke {} with too few arguments".format(invoke_args),
             sortid="luaexec/369",
         )
+        if not invoke_args:
+            # {{#invoke}} without any argument
+            return "{{#invoke:}}"
         return "{{" + invoke_args[0] + ":" + "|".join(invoke_args[1:]) + "}}"
 
     # Initialize the Lua sandbox if not already initialized
